@@ -49,7 +49,11 @@ def _affine(name):
 
     return {"northup": Affine(10, 0, 100, 0, -10, 200), "shifted": Affine(10, 0, 110, 0, -10, 200),
             "scaled": Affine(20, 0, 100, 0, -20, 200), "rotated": Affine.translation(100, 200) * Affine.rotation(30) * Affine.scale(10, -10),
-            "flipped": Affine(10, 0, 100, 0, 10, 200), "id": Affine.identity(), "shift": Affine.translation(1, 0)}[name]
+            "flipped": Affine(10, 0, 100, 0, 10, 200), "id": Affine.identity(), "shift": Affine.translation(1, 0),
+            "tiny_a": Affine(10.004, 0, 100, 0, -10, 200), "tiny_b": Affine(10, 0.004, 100, 0, -10, 200), "tiny_c": Affine(10, 0, 100.004, 0, -10, 200),
+            "tiny_d": Affine(10, 0, 100, 0.004, -10, 200), "tiny_e": Affine(10, 0, 100, 0, -10.004, 200), "tiny_f": Affine(10, 0, 100, 0, -10, 200.004),
+            "deg_fine": Affine(0.00025, 0, 10, 0, -0.00025, 50), "deg_fine2": Affine(0.0003, 0, 10, 0, -0.0003, 50),
+            "deg_fine_shift": Affine(0.00025, 0, 10.001, 0, -0.00025, 50)}[name]
 
 
 def build(d, memo):
@@ -67,7 +71,7 @@ def build(d, memo):
     if t == "crs":
         return _crs(d["crs"], memo)
     if t == "bbox":
-        return G.BoundingBox(*d["box"], crs=_crs(d["crs"], memo))
+        return G.BoundingBox(*[v + (1e-7 if d.get("nudge", 0) == i + 1 else 0) for i, v in enumerate(d["box"])], crs=_crs(d["crs"], memo))
     if t == "geobox":
         return GeoBox(tuple(d["shape"]), _affine(d["aff"]), _crs(d["crs"], memo))
     if t == "geom":
@@ -222,7 +226,7 @@ def _run_worker(args):
     hists, scratch, idx = args
     inp, out = os.path.join(scratch, f"h_in_{idx}.json"), os.path.join(scratch, f"h_out_{idx}.json")
     json.dump({"hists": hists}, open(inp, "w"))
-    env = dict(os.environ, PYTHONPATH=HERE, PYTHONHASHSEED="0")
+    env = dict(os.environ, PYTHONPATH=os.pathsep.join([HERE] + [p for p in os.environ.get("PYTHONPATH", "").split(os.pathsep) if p]), PYTHONHASHSEED="0")
     p = subprocess.run([sys.executable, os.path.join(HERE, "vh", "crs_worker.py"), inp, out], env=env, capture_output=True, text=True)
     if p.returncode != 0:
         return "crs_worker failed: " + p.stderr[-1500:]
@@ -261,7 +265,10 @@ def run(ctx):
         ctx.extra[f"histories_{cfgname}"] = min(len(hs), cap)
     res, hs = ctx.model_check("crs/CrsChurn.tla", "CrsChurn.cfg", emit=True, timeout=600)
     hs.sort(key=lambda c: json.dumps(c, sort_keys=True))
-    hs = ctx.subsample(hs, 40 if q else 243)
+    by = {}
+    for h in hs:
+        by.setdefault((h.get("rt"), h.get("mode")), []).append(h)
+    hs = [h for k in sorted(by) for h in ctx.subsample(by[k], 5 if q else 40)]      # balanced over (route, churn mode)
     ctx.extra["histories_churn"] = len(hs)
     hists += hs
     nb = 16
